@@ -299,6 +299,11 @@ func (c *Client) Send(e protocol.ChunkEncoder) error {
 		if chunk, err = e.Chunk(); err != nil {
 			return err
 		}
+
+		// an empty id cannot be acknowledged: a response without any ack entry would pass for its ack
+		if chunk == "" {
+			return errors.New("message carries an empty chunk id")
+		}
 	}
 
 	// Encode completely before touching the connection: a message that cannot
